@@ -230,6 +230,31 @@ CLAIMED = {
        "strLen<bufferLen for strings with buffer length, < fgMaxObjectCount objects.",
   technique="Lean 4 proof over translator-generated constants/op lists + model/implementation byte correspondence + implementation-vs-implementation round trip",
   ref="4/C16"),
+ "C12": dict(
+  text="Lean 4 theorems, unbounded over all UTF-16 strings and every transcoder meeting a stated contract (proved for UTF-8, UTF-16, "
+       "ISO-8859-1, US-ASCII and the four generated table transcoders): a code-shaped model of XMLFormatter (formatBuf / specialFormat / "
+       "handleUnEscapedChars / writeCharRef, escape rows, standard references and XML 1.1 classes regenerated from the sources each run) "
+       "writes exactly the reference escaping (formatBuf_writes); character data written with CharEscapes and attribute values written with "
+       "AttrEscapes are read back unchanged by an executable XML 1.0 reader (escape_sufficient_text/attr), the rows are minimal "
+       "(escape_rows_exact, escape_minimal), every unit handed to the transcoder is representable and an unrepresentable character or "
+       "surrogate pair becomes one &#xH; with its scalar value (unrep_as_charref), the formatter terminates on well-formed UTF-16 "
+       "(formatter_terminates); the repaired CDATA splitter keeps the text and leaves no ']]>' in a piece (cdata_split_preserves); "
+       "ensureValidString accepts exactly the legal XML 1.0 strings and the generated XMLChar tables are the Char productions "
+       "(ensureValid_iff_legal); an element with attributes and text serialises to a form whose values re-parse to the originals, "
+       "re-serialises identically, and ill-formed strings are refused (serialize_content_reparses / _idempotent / _refuses_illformed). "
+       "Negations proved with witnesses for the current code: xml11_eol_not_escaped (F9), cdata_asis_loses_terminator (F8), "
+       "formatter_hangs_on_trailing_high_surrogate (F14), bestfit_breaks_wellformedness, serializer_emits_illformed. Tied to the code by "
+       "(a) XMLFormatter vs model on every escape mode x unrep mode x 8 encodings x XML 1.0/1.1, (b) DOMLSSerializer vs tree model, and "
+       "(c) the property itself judged without the model: API-built and parsed trees x 11 encodings x feature sets x versions are "
+       "serialised, re-parsed, compared, re-serialised and decoded with spec codecs.",
+  note="PARTIAL: reparse_equal is proved for one element with attributes and a text child (no model of the whole parser); namespaces / "
+       "fix-up, doctype, entity references, BOM, pretty printing, filters, file and string targets are covered by the model-free round "
+       "trip only; the transcoder is modelled at UTF-16 unit level (byte level is C05); ICU encodings are judged by Python codecs. The "
+       "models mirror the code AS IT IS, with switches for four proposed repairs (fixes/c12-*.diff, tools/props/c12.py FIXED). Trusted: "
+       "Lean kernel + propext/Classical.choice/Quot.sound; XV.Spec.Unescape as transcribed; translator; harness equality (character data "
+       "coalesced, fix-up xmlns attributes tolerated); generators. 19 open findings recorded in known_findings.json.",
+  technique="Lean 4 proof over code-shaped models with translator-generated tables + model/implementation correspondence + model-free round trip",
+  ref="4/C12"),
 }
 
 def main():
